@@ -72,6 +72,11 @@ type Features struct {
 	// table options (ENGINE= ...). Partitions: CREATE TABLE ... PARTITION BY RANGE/LIST/HASH with
 	// partition definitions.
 	MySQL, Partitions bool
+	// NoMatchAgainst, NoShowDescribe: MySQL without MATCH .. AGAINST / without SHOW and DESCRIBE
+	// (C15: no document says whether AGAINST is a function or DESCRIBE t a table position)
+	NoMatchAgainst, NoShowDescribe bool
+	// NoSome: never spell the ANY quantifier SOME
+	NoSome bool
 	// Flat: no nested query anywhere and no statement-starting keyword after the
 	// first token (SELECT/INSERT ... VALUES/DELETE only): the sub-grammar C12 quantifies over
 	Flat bool
@@ -274,4 +279,11 @@ func Lexemes(toks []Tok) []lexgen.Lexeme {
 		out = append(out, l)
 	}
 	return out
+}
+
+// TableName draws a table name (possibly schema-qualified / quoted) and returns its source
+// spelling and the value the tree stores; the name is recorded as a written table.
+func (g *G) TableName() (src, name string) {
+	t := g.tableName()
+	return t.src, t.name
 }
